@@ -288,7 +288,7 @@ PLANS = {
         'assumptions': COMMON_ASSUMPTIONS,
     },
     'C17': {
-        'level_text': 'Generic receiver machine model-checked with action properties (a failing call changes nothing, scribbling changes nothing); Util.tla composes the five package machines (Isolation, KeepOnFail checked exhaustively to depth 3/4) and its simulated behaviours are replayed on persistent real receivers; seeded histories and string/bytes twins judged by TLC. One caller buffer, two records (twin2) and the Memo.tla model of remembered inputs (negative control: a key that aliases the caller's slice).',
+        'level_text': 'Generic receiver machine model-checked with action properties (a failing call changes nothing, scribbling changes nothing); Util.tla composes the five package machines (Isolation, KeepOnFail checked exhaustively to depth 3/4) and its simulated behaviours are replayed on persistent real receivers; seeded histories and string/bytes twins judged by TLC. One caller buffer, two records (twin2) and the Memo.tla model of remembered inputs (negative control: a key that aliases the slice of the caller).',
         'pre': [gen_util_behaviours],
         'drivers': [{'name': 'c17', 'shards': 8}, {'name': 'util', 'shards': 4, 'per': 6000}, {'name': 'ovr', 'shards': 1}, CONC('c17')],
         'mc': [UTIL_MC] + MEMO_MC + [{'module': 'MC_C17', 'what': 'generic receiver machine: 3 parsable / 3 unparsable inputs, histories to depth 5: a failing call never changes the receiver, scribbling the input never changes earlier results'}],
